@@ -1,0 +1,17 @@
+//go:build verif
+
+package gcsemu
+
+// Verification hooks. This file is compiled only with `-tags verif`; nothing in it is
+// reachable from a normal build.
+
+// VerifYield, when set, is called at the named scheduling points of the object-mutating
+// handlers (before and just inside the per-object lock) and between the separate file
+// operations of the file store.
+var VerifYield func(point string)
+
+func verifYield(point string) {
+	if f := VerifYield; f != nil {
+		f(point)
+	}
+}
